@@ -1,3 +1,373 @@
 import GnpyModel
-/- Property theorems for C01 (only the property theorems and their non-vacuity examples live here;
-   helper lemmas go to GnpyProofs/Lemmas). -/
+import GnpyProofs.Lemmas.Db
+import GnpyProofs.Lemmas.Spectrum
+/- Property theorems for C01 — per-channel power always splits exactly into signal + ASE + NLI.
+   Model: GnpyModel/Spectrum.lean; vocabulary (`Inv`, `OpOk`, `RunOk`, `PathOk`): Lemmas/Spectrum.lean.
+   All statements over ℝ. -/
+namespace Gnpy.Spectrum
+open Chan
+
+/-! ### one mutating call preserves the invariant -/
+
+theorem attLin_inv (c : Chan ℝ) (g : ℝ) (h : Inv c) (hg : 0 < g) : Inv (c.attLin g) := by
+  obtain ⟨hp, hs, ha, hn, hsum⟩ := h
+  exact ⟨mul_pos hp hg, hs, ha, hn, hsum⟩
+
+theorem gainLin_inv (c : Chan ℝ) (g : ℝ) (h : Inv c) (hg : 0 < g) : Inv (c.gainLin g) := by
+  obtain ⟨hp, hs, ha, hn, hsum⟩ := h
+  exact ⟨mul_pos hp hg, hs, ha, hn, hsum⟩
+
+/-- any attenuation given in dB (also a negative one) keeps the invariant -/
+theorem attDb_inv (c : Chan ℝ) (d : ℝ) (h : Inv c) : Inv (c.attDb d) := by
+  have := db2lin_pos d
+  exact attLin_inv c _ h (by simp only [Nat.cast_one]; positivity)
+
+theorem gainDb_inv (c : Chan ℝ) (d : ℝ) (h : Inv c) : Inv (c.gainDb d) :=
+  gainLin_inv c _ h (db2lin_pos d)
+
+theorem addAse_inv (c : Chan ℝ) (e : ℝ) (h : Inv c) (he : 0 ≤ e) : Inv (c.addAse e) := by
+  obtain ⟨hp, hs, ha, hn, hsum⟩ := h
+  have hp' : 0 < c.p + e := by linarith
+  refine ⟨?_, ?_, ?_, ?_, ?_⟩ <;> simp only [addAse]
+  · exact hp'
+  · positivity
+  · positivity
+  · positivity
+  · field_simp
+    nlinarith [hsum]
+
+/-- NLI is a transfer from the channel power to the NLI share: fine as long as it does not exceed the
+channel power -/
+theorem addNli_inv (c : Chan ℝ) (x : ℝ) (h : Inv c) (hx0 : 0 ≤ x) (hx : x ≤ c.p) : Inv (c.addNli x) := by
+  obtain ⟨hp, hs, ha, hn, hsum⟩ := h
+  have hr0 : 0 ≤ x / c.p := by positivity
+  have hr1 : x / c.p ≤ 1 := by rw [div_le_one hp]; exact hx
+  refine ⟨?_, ?_, ?_, ?_, ?_⟩ <;> simp only [addNli, Nat.cast_one]
+  · exact hp
+  · exact mul_nonneg hs (by linarith)
+  · exact mul_nonneg ha (by linarith)
+  · have := mul_nonneg hn (show (0:ℝ) ≤ 1 - x / c.p by linarith); linarith
+  · nlinarith [hsum]
+
+/-- with the NLI strictly below the channel power some signal is left -/
+theorem addNli_live (c : Chan ℝ) (x : ℝ) (h : Live c) (hx0 : 0 ≤ x) (hx : x < c.p) : Live (c.addNli x) := by
+  refine ⟨addNli_inv c x h.1 hx0 (le_of_lt hx), ?_⟩
+  have hp := h.1.1
+  have hr1 : x / c.p < 1 := by rw [div_lt_one hp]; exact hx
+  simp only [addNli, Nat.cast_one]
+  exact mul_pos h.2 (by linarith)
+
+theorem addAse_live (c : Chan ℝ) (e : ℝ) (h : Live c) (he : 0 ≤ e) : Live (c.addAse e) := by
+  refine ⟨addAse_inv c e h.1 he, ?_⟩
+  have hp := h.1.1
+  have hp' : 0 < c.p + e := by linarith
+  simp only [addAse]
+  exact mul_pos h.2 (by positivity)
+
+theorem step_inv (c : Chan ℝ) (o : Op ℝ) (h : Inv c) (ho : OpOk c o) : Inv (step c o) := by
+  cases o with
+  | attLin g => exact attLin_inv c g h ho
+  | attDb d => exact attDb_inv c d h
+  | gainLin g => exact gainLin_inv c g h ho
+  | gainDb d => exact gainDb_inv c d h
+  | addAse e => exact addAse_inv c e h ho
+  | addNli x => exact addNli_inv c x h ho.1 (le_of_lt ho.2)
+
+theorem step_live (c : Chan ℝ) (o : Op ℝ) (h : Live c) (ho : OpOk c o) : Live (step c o) := by
+  cases o with
+  | attLin g => exact ⟨attLin_inv c g h.1 ho, h.2⟩
+  | attDb d => exact ⟨attDb_inv c d h.1, h.2⟩
+  | gainLin g => exact ⟨gainLin_inv c g h.1 ho, h.2⟩
+  | gainDb d => exact ⟨gainDb_inv c d h.1, h.2⟩
+  | addAse e => exact addAse_live c e h ho
+  | addNli x => exact addNli_live c x h ho.1 ho.2
+
+/-- **C01, invariant along every operation sequence**: whatever sequence of attenuations, gains,
+ASE and NLI additions an element (or a whole path) applies, the shares stay non-negative and sum to 1. -/
+theorem run_inv (ops : List (Op ℝ)) (c : Chan ℝ) (h : Inv c) (hok : RunOk ops c) : Inv (run ops c) := by
+  induction ops generalizing c with
+  | nil => exact h
+  | cons o r ih => exact ih (step c o) (step_inv c o h hok.1) hok.2
+
+theorem run_live (ops : List (Op ℝ)) (c : Chan ℝ) (h : Live c) (hok : RunOk ops c) : Live (run ops c) := by
+  induction ops generalizing c with
+  | nil => exact h
+  | cons o r ih => exact ih (step c o) (step_live c o h hok.1) hok.2
+
+/-- every share lies in [0,1] -/
+theorem shares_le_one (c : Chan ℝ) (h : Inv c) :
+    (0 ≤ c.s ∧ c.s ≤ 1) ∧ (0 ≤ c.a ∧ c.a ≤ 1) ∧ (0 ≤ c.n ∧ c.n ≤ 1) := by
+  obtain ⟨_, hs, ha, hn, hsum⟩ := h
+  refine ⟨⟨hs, ?_⟩, ⟨ha, ?_⟩, ⟨hn, ?_⟩⟩ <;> linarith
+
+/-- **signal power + ASE power + NLI power = channel power** -/
+theorem power_split (c : Chan ℝ) (h : Inv c) : c.signal + c.ase + c.nli = c.p := by
+  obtain ⟨_, _, _, _, hsum⟩ := h
+  simp only [signal, ase, nli]
+  calc c.s * c.p + c.a * c.p + c.n * c.p = (c.s + c.a + c.n) * c.p := by ring
+    _ = c.p := by rw [hsum, one_mul]
+
+/-- the split holds, and the shares are in [0,1], at every point of every guarded run -/
+theorem run_power_split (ops : List (Op ℝ)) (c : Chan ℝ) (h : Inv c) (hok : RunOk ops c) :
+    (run ops c).signal + (run ops c).ase + (run ops c).nli = (run ops c).p ∧
+    (0 ≤ (run ops c).s ∧ (run ops c).s ≤ 1) ∧ (0 ≤ (run ops c).a ∧ (run ops c).a ≤ 1) ∧
+    (0 ≤ (run ops c).n ∧ (run ops c).n ≤ 1) :=
+  ⟨power_split _ (run_inv ops c h hok), shares_le_one _ (run_inv ops c h hok)⟩
+
+/-- … and at every point of every path through any list of elements -/
+theorem path_inv (es : List (Elem ℝ)) (c : Chan ℝ) (h : Inv c) (hok : PathOk es c) : Inv (path es c) := by
+  rw [path_eq_run]; exact run_inv _ c h ((pathOk_iff es c).1 hok)
+
+theorem path_power_split (es : List (Elem ℝ)) (c : Chan ℝ) (h : Inv c) (hok : PathOk es c) :
+    (path es c).signal + (path es c).ase + (path es c).nli = (path es c).p :=
+  power_split _ (path_inv es c h hok)
+
+/-! ### power bookkeeping: nothing is created or lost -/
+
+/-- adding ASE: signal and NLI powers are untouched, ASE power and total power grow by exactly `e` -/
+theorem addAse_powers (c : Chan ℝ) (e : ℝ) (hp : 0 < c.p) (he : 0 ≤ e) :
+    (c.addAse e).signal = c.signal ∧ (c.addAse e).nli = c.nli ∧
+    (c.addAse e).ase = c.ase + e ∧ (c.addAse e).p = c.p + e := by
+  have hp' : c.p + e ≠ 0 := by linarith
+  refine ⟨?_, ?_, ?_, rfl⟩ <;> simp only [addAse, signal, ase, nli] <;> field_simp
+
+/-- adding NLI: total power is untouched; the power `x` is taken from the three components in
+proportion to their shares and booked as NLI: signal loses `x·s`, ASE loses `x·a`, NLI gains `x·(1−n)` -/
+theorem addNli_powers (c : Chan ℝ) (x : ℝ) (hp : 0 < c.p) :
+    (c.addNli x).p = c.p ∧ (c.addNli x).signal = c.signal - x * c.s ∧
+    (c.addNli x).ase = c.ase - x * c.a ∧ (c.addNli x).nli = c.nli + x * (1 - c.n) := by
+  have hp' : c.p ≠ 0 := ne_of_gt hp
+  refine ⟨rfl, ?_, ?_, ?_⟩ <;> simp only [addNli, signal, ase, nli, Nat.cast_one] <;> field_simp <;> ring
+
+/-- hence under the invariant the NLI power grows by exactly what signal and ASE lose -/
+theorem addNli_transfer (c : Chan ℝ) (x : ℝ) (h : Inv c) :
+    (c.addNli x).nli - c.nli = (c.signal - (c.addNli x).signal) + (c.ase - (c.addNli x).ase) := by
+  obtain ⟨hp, _, _, _, hsum⟩ := h
+  obtain ⟨_, h1, h2, h3⟩ := addNli_powers c x hp
+  rw [h1, h2, h3]
+  have : 1 - c.n = c.s + c.a := by linarith
+  rw [this]; ring
+
+/-- attenuation / gain scale the three powers by the same factor -/
+theorem attLin_powers (c : Chan ℝ) (g : ℝ) :
+    (c.attLin g).signal = g * c.signal ∧ (c.attLin g).ase = g * c.ase ∧ (c.attLin g).nli = g * c.nli ∧
+    (c.attLin g).p = g * c.p := by
+  simp only [attLin, signal, ase, nli]
+  refine ⟨?_, ?_, ?_, ?_⟩ <;> ring
+
+theorem gainLin_powers (c : Chan ℝ) (g : ℝ) :
+    (c.gainLin g).signal = g * c.signal ∧ (c.gainLin g).ase = g * c.ase ∧ (c.gainLin g).nli = g * c.nli ∧
+    (c.gainLin g).p = g * c.p := attLin_powers c g
+
+/-- an attenuation of `d` dB lowers the channel power by exactly `d` dB -/
+theorem attDb_dbm (c : Chan ℝ) (d : ℝ) (hp : 0 < c.p) : watt2dbm (c.attDb d).p = watt2dbm c.p - d := by
+  have := db2lin_pos d
+  simp only [attDb, attLin, watt2dbm, Nat.cast_one, Nat.cast_ofNat]
+  rw [show c.p * (1 / db2lin d) * 1000 = (c.p * 1000) / db2lin d by ring,
+      lin2db_div _ _ (by positivity) this, lin2db_db2lin]
+
+theorem gainDb_dbm (c : Chan ℝ) (d : ℝ) (hp : 0 < c.p) : watt2dbm (c.gainDb d).p = watt2dbm c.p + d := by
+  have := db2lin_pos d
+  simp only [gainDb, gainLin, watt2dbm, Nat.cast_ofNat]
+  rw [show c.p * db2lin d * 1000 = (c.p * 1000) * db2lin d by ring,
+      lin2db_mul _ _ (by positivity) this, lin2db_db2lin]
+
+/-! ### the reported figures -/
+
+/-- **1/GSNR = 1/OSNR_ASE + 1/SNR_NLI** (linear units) -/
+theorem gsnr_harmonic (c : Chan ℝ) (hs : 0 < c.s) (ha : 0 < c.a) (hn : 0 < c.n) :
+    1 / c.gsnr = 1 / c.snrLin + 1 / c.snrNli := by
+  simp only [gsnr, snrLin, snrNli]
+  field_simp
+
+/-- total form (valid also while a noise share is still zero) -/
+theorem nsr_split (c : Chan ℝ) : c.nsr = c.nsrAse + c.nsrNli := by
+  simp only [nsr, nsrAse, nsrNli]; ring
+
+theorem nsr_eq_inv_gsnr (c : Chan ℝ) : c.nsr = 1 / c.gsnr ∧ c.nsrAse = 1 / c.snrLin ∧ c.nsrNli = 1 / c.snrNli := by
+  simp only [nsr, nsrAse, nsrNli, gsnr, snrLin, snrNli, one_div, inv_div, and_self]
+
+/-- before any ASE is added GSNR is the SNR_NLI; before any NLI it is the OSNR -/
+theorem gsnr_no_ase (c : Chan ℝ) (ha : c.a = 0) : c.gsnr = c.snrNli := by
+  simp only [gsnr, snrNli, ha, zero_add]
+
+theorem gsnr_no_nli (c : Chan ℝ) (hn : c.n = 0) : c.gsnr = c.snrLin := by
+  simp only [gsnr, snrLin, hn, add_zero]
+
+/-- the dB figures recorded by `Transceiver._calc_snr` obey the same identity -/
+theorem gsnr_harmonic_db (c : Chan ℝ) (hs : 0 < c.s) (ha : 0 < c.a) (hn : 0 < c.n) :
+    db2lin (-(c.gsnrDb)) = db2lin (-(c.snrLinDb)) + db2lin (-(c.snrNliDb)) := by
+  have h1 : 0 < c.gsnr := by simp only [gsnr]; positivity
+  have h2 : 0 < c.snrLin := by simp only [snrLin]; positivity
+  have h3 : 0 < c.snrNli := by simp only [snrNli]; positivity
+  simp only [gsnrDb, snrLinDb, snrNliDb]
+  rw [db2lin_neg, db2lin_neg, db2lin_neg, db2lin_lin2db _ h1, db2lin_lin2db _ h2, db2lin_lin2db _ h3]
+  have := gsnr_harmonic c hs ha hn
+  simp only [one_div] at this
+  exact this
+
+/-- `snr_sum`: in linear units the inverse SNR grows by the inverse added SNR scaled to the
+channel bandwidth, `1/snr' = 1/snr + (bw/12.5e9)/snr_added` -/
+theorem snrSum_lin (snr bw added : ℝ) (hbw : 0 < bw) :
+    db2lin (-(snrSum snr bw added)) = db2lin (-snr) + db2lin (-added) * (bw / 12500000000) := by
+  have h1 := db2lin_pos (-snr)
+  have h2 := db2lin_pos (-(added - lin2db (bw / 12500000000)))
+  simp only [snrSum, refBw, Nat.cast_ofNat, neg_neg]
+  rw [db2lin_lin2db _ (by positivity)]
+  congr 1
+  rw [neg_sub, sub_eq_add_neg, db2lin_add, db2lin_lin2db _ (by positivity)]
+  ring
+
+/-- **the figures reported after `update_snr` still obey 1/GSNR = 1/OSNR_ASE + 1/SNR_NLI**: the same
+lumped penalty is added to 1/OSNR and to 1/GSNR, SNR_NLI is left as recorded -/
+theorem updateSnr_harmonic (c : Chan ℝ) (baud : ℝ) (args : List ℝ) (hb : 0 < baud)
+    (hs : 0 < c.s) (ha : 0 < c.a) (hn : 0 < c.n) :
+    db2lin (-(updateSnr c baud args).2.2) =
+      db2lin (-(updateSnr c baud args).1) + db2lin (-(updateSnr c baud args).2.1) := by
+  simp only [updateSnr]
+  rw [snrSum_lin _ _ _ hb, snrSum_lin _ _ _ hb, gsnr_harmonic_db c hs ha hn]
+  ring
+
+/-- `update_snr`: the lumped penalties add up in inverse linear units, `1/snr_added = Σ 1/sᵢ` -/
+theorem snrAdded_lin (args : List ℝ) (hne : args ≠ []) :
+    db2lin (-(snrAdded args)) = (args.map (fun s => db2lin (-s))).sum := by
+  have hpos : 0 < (args.map (fun s => db2lin (-s))).sum := by
+    cases args with
+    | nil => exact absurd rfl hne
+    | cons a r =>
+      simp only [List.map_cons, List.sum_cons]
+      have h1 := db2lin_pos (-a)
+      have h2 : 0 ≤ (r.map (fun s => db2lin (-s))).sum :=
+        List.sum_nonneg (fun x hx => by
+          obtain ⟨s, _, rfl⟩ := List.mem_map.1 hx
+          exact le_of_lt (db2lin_pos _))
+      linarith
+  simp only [snrAdded, snrAddedLin, Nat.cast_zero, neg_neg]
+  rw [snrAddedLin_eq, zero_add, db2lin_lin2db _ hpos]
+
+/-- the reported OSNR and GSNR after `update_snr`, in inverse linear units:
+`1/x' = 1/x + (baud/12.5e9) · Σ 1/sᵢ` for both figures -/
+theorem updateSnr_lin (c : Chan ℝ) (baud : ℝ) (args : List ℝ) (hb : 0 < baud) (hne : args ≠ []) :
+    db2lin (-(updateSnr c baud args).1) =
+      db2lin (-(c.snrLinDb)) + (args.map (fun s => db2lin (-s))).sum * (baud / 12500000000) ∧
+    db2lin (-(updateSnr c baud args).2.2) =
+      db2lin (-(c.gsnrDb)) + (args.map (fun s => db2lin (-s))).sum * (baud / 12500000000) ∧
+    (updateSnr c baud args).2.1 = c.snrNliDb := by
+  refine ⟨?_, ?_, rfl⟩ <;> simp only [updateSnr] <;> rw [snrSum_lin _ _ _ hb, snrAdded_lin args hne]
+
+/-- `update_snr` can only lower the reported OSNR and GSNR (dB) -/
+theorem updateSnr_le (c : Chan ℝ) (baud : ℝ) (args : List ℝ) (hb : 0 < baud) :
+    (updateSnr c baud args).1 ≤ c.snrLinDb ∧ (updateSnr c baud args).2.2 ≤ c.gsnrDb := by
+  have key : ∀ x : ℝ, snrSum x baud (snrAdded args) ≤ x := by
+    intro x
+    have h := snrSum_lin x baud (snrAdded args) hb
+    have hp : 0 < db2lin (-(snrAdded args)) * (baud / 12500000000) := by
+      have := db2lin_pos (-(snrAdded args)); positivity
+    have : db2lin (-x) ≤ db2lin (-(snrSum x baud (snrAdded args))) := by rw [h]; linarith
+    have := (db2lin_le_iff _ _).1 this
+    linarith
+  simp only [updateSnr]
+  exact ⟨key _, key _⟩
+
+/-- a spectrum through one element: every channel keeps the invariant -/
+theorem applyElems_inv (es : List (Elem ℝ)) (sp : List (Chan ℝ))
+    (h : List.Forall₂ (fun e c => Inv c ∧ RunOk e.ops c) es sp) : ∀ c ∈ applyElems es sp, Inv c := by
+  induction h with
+  | nil => simp [applyElems]
+  | cons hd _ ih =>
+    intro c hc
+    simp only [applyElems, List.zipWith_cons_cons, List.mem_cons] at hc
+    rcases hc with rfl | hc
+    · exact run_inv _ _ hd.1 hd.2
+    · exact ih c hc
+
+
+/-! ### band split and merge -/
+
+/-- a selection keeps every kept channel as it is (nothing else appears) -/
+theorem demux_mem (keep : Int → Bool) (sp : List (Int × Chan ℝ)) (kc : Int × Chan ℝ) :
+    kc ∈ demux keep sp ↔ kc ∈ sp ∧ keep kc.1 = true := by
+  simp [demux]
+
+theorem demux_sublist (keep : Int → Bool) (sp : List (Int × Chan ℝ)) : (demux keep sp).Sublist sp := by
+  simp only [demux]; exact List.filter_sublist
+
+/-- a merge returns exactly the channels it was given (as a multiset), each unchanged, sorted by frequency -/
+theorem mux_spec (parts : List (List (Int × Chan ℝ))) (m : List (Int × Chan ℝ)) (h : mux parts = some m) :
+    m.Perm parts.flatten := mux_perm parts m h
+
+theorem mux_sorted (x y : List (Int × Chan ℝ)) : (add2 x y).Pairwise (fun u v => u.1 ≤ v.1) :=
+  sortK_sorted _
+
+/-- split into a band and its complement, then merge: the same channels, none lost, none duplicated -/
+theorem split_merge_perm (keep : Int → Bool) (sp : List (Int × Chan ℝ)) :
+    (add2 (demux keep sp) (demux (fun f => !keep f) sp)).Perm sp := by
+  simp only [add2, demux]
+  exact (sortK_perm _).trans (List.filter_append_perm _ sp)
+
+/-- total power is neither created nor lost by split + merge -/
+theorem split_merge_power (keep : Int → Bool) (sp : List (Int × Chan ℝ)) :
+    sumL ((add2 (demux keep sp) (demux (fun f => !keep f) sp)).map (fun kc => kc.2.p)) =
+      sumL (sp.map (fun kc => kc.2.p)) := by
+  rw [sumL_eq_sum, sumL_eq_sum]
+  exact ((split_merge_perm keep sp).map _).sum_eq
+
+/-- merging any number of sub-spectra conserves the total power -/
+theorem mux_power (parts : List (List (Int × Chan ℝ))) (m : List (Int × Chan ℝ)) (h : mux parts = some m) :
+    sumL (m.map (fun kc => kc.2.p)) = sumL (parts.flatten.map (fun kc => kc.2.p)) := by
+  rw [sumL_eq_sum, sumL_eq_sum]
+  exact ((mux_perm parts m h).map _).sum_eq
+
+/-- split and merge keep the invariant channel-wise -/
+theorem demux_mux_inv (parts : List (List (Int × Chan ℝ))) (m : List (Int × Chan ℝ)) (h : mux parts = some m)
+    (hinv : ∀ part ∈ parts, ∀ kc ∈ part, Inv kc.2) : ∀ kc ∈ m, Inv kc.2 := by
+  intro kc hkc
+  have := (mux_perm parts m h).subset hkc
+  obtain ⟨part, hp, hk⟩ := List.mem_flatten.1 this
+  exact hinv part hp kc hk
+
+/-- every channel that leaves a multiband amplifier is one input channel, in the band of one of its
+amplifiers, taken through that amplifier -/
+theorem multiband_mem (amps : List ((Int → Bool) × (Int → Elem ℝ))) (sp out : List (Int × Chan ℝ))
+    (h : multiband amps sp = some out) (kc : Int × Chan ℝ) (hkc : kc ∈ out) :
+    ∃ bf ∈ amps, ∃ c, (kc.1, c) ∈ sp ∧ bf.1 kc.1 = true ∧ kc.2 = (bf.2 kc.1).apply c := by
+  simp only [multiband] at h
+  have hm := (mux_perm _ out h).subset hkc
+  obtain ⟨part, hp, hk⟩ := List.mem_flatten.1 hm
+  obtain ⟨bf, hbf, hpart⟩ := List.mem_filterMap.1 hp
+  split at hpart
+  · exact absurd hpart (by simp)
+  · simp only [Option.some.injEq] at hpart
+    subst hpart
+    obtain ⟨kc0, hk0, rfl⟩ := List.mem_map.1 hk
+    exact ⟨bf, hbf, kc0.2, ((demux_mem bf.1 sp kc0).1 hk0).1, ((demux_mem bf.1 sp kc0).1 hk0).2, rfl⟩
+
+/-- hence the invariant survives a multiband amplifier -/
+theorem multiband_inv (amps : List ((Int → Bool) × (Int → Elem ℝ))) (sp out : List (Int × Chan ℝ))
+    (h : multiband amps sp = some out) (hinv : ∀ kc ∈ sp, Inv kc.2)
+    (hok : ∀ bf ∈ amps, ∀ kc ∈ sp, RunOk (bf.2 kc.1).ops kc.2) : ∀ kc ∈ out, Inv kc.2 := by
+  intro kc hkc
+  obtain ⟨bf, hbf, c, hc, _, heq⟩ := multiband_mem amps sp out h kc hkc
+  rw [heq]
+  exact run_inv _ c (hinv _ hc) (hok bf hbf _ hc)
+
+/-! ### non-vacuity -/
+
+/-- a channel right after the transmitter: 1 mW, all signal -/
+example : Inv ({ p := 1/1000, s := 1, a := 0, n := 0 } : Chan ℝ) := by
+  refine ⟨by norm_num, by norm_num, by norm_num, by norm_num, by norm_num⟩
+
+/-- a guarded run through a fibre-and-amplifier-like op list exists (hypotheses of `run_inv` are satisfiable) -/
+example : RunOk [Op.addNli (1/1000000), Op.attDb 1, Op.attLin (1/100), Op.addAse (1/1000000), Op.gainDb 20]
+    ({ p := 1/1000, s := 1, a := 0, n := 0 } : Chan ℝ) := by
+  refine ⟨⟨?_, ?_⟩, trivial, ?_, ?_, trivial, trivial⟩
+  · norm_num
+  · show (1:ℝ)/1000000 < 1/1000; norm_num
+  · show (0:ℝ) < 1/100; norm_num
+  · show (0:ℝ) ≤ 1/1000000; norm_num
+
+/-- a channel with all three shares positive (hypotheses of `gsnr_harmonic`) -/
+example : Live ({ p := 1/1000, s := 98/100, a := 1/100, n := 1/100 } : Chan ℝ) := by
+  refine ⟨⟨by norm_num, by norm_num, by norm_num, by norm_num, by norm_num⟩, by norm_num⟩
+
+end Gnpy.Spectrum
